@@ -26,6 +26,7 @@ func runC12(c *Ctx) {
 	c.Rule("codec-table-consistent", "predicate, decoder, encoder and dispatch agree per codec", 5)
 	c.Rule("decoder-never-writes-input", "no write into borrowed bytes", 3)
 	c.Rule("seek-advances-to-target", "Seek = early return when cur >= x, else Next until At() >= x", 2)
+	c.Rule("pooled-buffer-released-once", "the pooled decode buffer is released once; the aliasing test does not depend on slice length", 2)
 	p := c.Load("pkg/store")
 	if p == nil {
 		return
@@ -333,6 +334,126 @@ func runC12(c *Ctx) {
 		}
 		c.Check(early && loop, "seek-advances-to-target", construct, p.Pos(fn.Decl.Pos()), "seek-shape",
 			fmt.Sprintf("Seek must return true at once only when the current value is >= the target (found=%v) and otherwise advance with Next until At() >= target (found=%v)", early, loop))
+	}
+
+	// (5) a decoded list owns its buffer exclusively: the pooled decode buffer goes onto the release list
+	// once. The second candidate (what the decompressor returned) is released only when it is a different
+	// array, and the aliasing test has to work for the zero-length slice the pool hands out — it must not
+	// observe the length of its arguments (no len(), no index into the argument itself; only into its
+	// full-capacity reslice).
+	if fn := p.Func(rel, "", "diffVarintSnappyDecode"); fn == nil {
+		c.Incomplete("pooled-buffer-released-once", rel+".diffVarintSnappyDecode", "", "function not found")
+	} else {
+		info := fn.Info()
+		construct := rel + ".diffVarintSnappyDecode"
+		// the pooled buffer: defined from a dereference of the result of <pool>.Get
+		var pooled types.Object
+		inspectNoLit(fn.Body(), func(nd ast.Node) bool {
+			as, ok := nd.(*ast.AssignStmt)
+			if !ok || len(as.Lhs) != 1 || len(as.Rhs) != 1 {
+				return true
+			}
+			if st, ok := unparen(as.Rhs[0]).(*ast.StarExpr); ok {
+				if call := singleDefTuple(fn, info, objOf(info, st.X)); call != nil {
+					if f := calleeOf(info, call); f != nil && f.Name() == "Get" {
+						pooled = objOf(info, as.Lhs[0])
+					}
+				}
+			}
+			return true
+		})
+		var releases []*ast.AssignStmt
+		var list types.Object
+		inspectNoLit(fn.Body(), func(nd ast.Node) bool {
+			as, ok := nd.(*ast.AssignStmt)
+			if !ok || len(as.Lhs) != 1 || len(as.Rhs) != 1 {
+				return true
+			}
+			call, ok := unparen(as.Rhs[0]).(*ast.CallExpr)
+			if !ok || len(call.Args) != 2 {
+				return true
+			}
+			if id, ok := call.Fun.(*ast.Ident); !ok || id.Name != "append" || canon(call.Args[0]) != canon(as.Lhs[0]) {
+				return true
+			}
+			if sl, ok := info.TypeOf(as.Lhs[0]).Underlying().(*types.Slice); !ok || sl.Elem().String() != "[]byte" {
+				return true
+			}
+			list = objOf(info, as.Lhs[0])
+			releases = append(releases, as)
+			return true
+		})
+		if pooled == nil || list == nil {
+			c.Incomplete("pooled-buffer-released-once", construct, p.Pos(fn.Decl.Pos()), "pooled buffer / release list not recognised")
+		} else {
+			nPooled, bad := 0, ""
+			var aliasFn *types.Func
+			for _, as := range releases {
+				arg := unparen(as.Rhs[0]).(*ast.CallExpr).Args[1]
+				if objOf(info, arg) == pooled {
+					nPooled++
+					continue
+				}
+				// any other buffer: only when it is not the pooled array
+				guarded := false
+				for _, g := range guardsOf(p, fn, as) {
+					refine(g.Cond, g.Pol, func(atom ast.Expr, t bool) {
+						call, ok := unparen(atom).(*ast.CallExpr)
+						if !ok || t || len(call.Args) != 2 {
+							return
+						}
+						a0, a1 := objOf(info, call.Args[0]), objOf(info, call.Args[1])
+						if (a0 == objOf(info, arg) && a1 == pooled) || (a1 == objOf(info, arg) && a0 == pooled) {
+							if f := calleeOf(info, call); f != nil {
+								aliasFn, guarded = f, true
+							}
+						}
+					})
+				}
+				if !guarded {
+					bad = "`" + stmtText(p, as) + "` puts " + canon(arg) + " on the release list without first establishing that it is not the pooled buffer " + pooled.Name() + " itself: the same array would go back to the pool twice and back two decoded lists at once"
+				}
+			}
+			if nPooled != 1 && bad == "" {
+				bad = fmt.Sprintf("the pooled buffer %s is put on the release list %d times", pooled.Name(), nPooled)
+			}
+			c.Check(bad == "", "pooled-buffer-released-once", construct, p.Pos(fn.Decl.Pos()), "buffer-released-twice", bad)
+			if aliasFn != nil {
+				af := p.findFuncDecl(aliasFn)
+				acons := rel + "." + aliasFn.Name()
+				if af == nil {
+					c.Incomplete("pooled-buffer-released-once", acons, "", "body of the aliasing test not found")
+				} else {
+					ainfo := af.Info()
+					params := map[types.Object]bool{}
+					for _, f := range af.Decl.Type.Params.List {
+						for _, nm := range f.Names {
+							params[ainfo.Defs[nm]] = true
+						}
+					}
+					why := ""
+					ast.Inspect(af.Body(), func(nd ast.Node) bool {
+						switch v := nd.(type) {
+						case *ast.CallExpr:
+							if id, ok := v.Fun.(*ast.Ident); ok && id.Name == "len" && len(v.Args) == 1 && params[objOf(ainfo, v.Args[0])] {
+								why = "it tests len(" + canon(v.Args[0]) + ")"
+							}
+						case *ast.IndexExpr:
+							if params[objOf(ainfo, v.X)] {
+								why = "it indexes " + canon(v) + ", which exists only when the slice has a length"
+							}
+						case *ast.RangeStmt:
+							if params[objOf(ainfo, v.X)] {
+								why = "it ranges over " + canon(v.X)
+							}
+						}
+						return true
+					})
+					c.Check(why == "", "pooled-buffer-released-once", acons+"#length-independent", p.Pos(af.Decl.Pos()), "alias-test-observes-length",
+						"the aliasing test decides whether the decompressor's result is the pooled buffer; the pool hands out zero-length slices, so a test that depends on the length of its arguments ("+why+") never recognises it")
+				}
+			}
+		}
 	}
 }
 
